@@ -276,6 +276,27 @@ def loop_name(frame, ordinal):
     return "%s/loop%d" % (short(frame.fi.key), ordinal)
 
 
+def promote_mutated_displays(I, frame, body):
+    """a dict / list display held in a local and MUTATED by the loop body (d[k] = v, l.append(x), ...) must be a heap object before the
+    loop head is abstracted - otherwise an arbitrary iteration would start from the display as it was before the first one"""
+    ctx = I.ctx
+    names = set()
+    for st in body:
+        for node in ast.walk(st):
+            if isinstance(node, ast.Subscript) and isinstance(node.ctx, (ast.Store, ast.Del)) and isinstance(node.value, ast.Name):
+                names.add(node.value.id)
+            if isinstance(node, ast.Call) and isinstance(node.func, ast.Attribute) and isinstance(node.func.value, ast.Name) and node.func.attr in ("append", "extend", "add", "update", "setdefault", "pop", "clear", "insert", "remove", "discard"):
+                names.add(node.func.value.id)
+    for nm in names:
+        v = frame.locals.get(nm)
+        if isinstance(v, VDict) and getattr(v, "sym", None) is None and not v.items:
+            m = ctx.alloc(None, TMap(val=ANY))
+            # the new object's slot of the membership array is empty: stated as a FACT about the current array (the slot of a fresh id is
+            # unconstrained so far) rather than as a store, so that heap terms mentioned by specifications keep their syntactic form
+            ctx.assume(z3.Select(ctx.field_array("$mhas"), ctx.ref_id(m)) == z3.K(Z.Val, z3.BoolVal(False)))
+            v.sym = m
+
+
 def _element_alias(frame, s, loop):
     """the name under which the contract speaks of the loop's element, if the code calls it differently: the single entry of
     local_types that occurs nowhere in the function (so it can only mean the element) while the loop variable has no entry"""
@@ -302,6 +323,7 @@ def symbolic_for(I, frame, s, it, ordinal):
         raise Unsupported("for loop over %r" % (it,))
     name = loop_name(frame, ordinal)
     alias = _element_alias(frame, s, loop)
+    promote_mutated_displays(I, frame, s.body)
     n = z3.Select(ctx.field_array("$len"), ctx.ref_id(it))
     ctx.assume(n >= 0)
     entry_heap = ctx.snapshot()
